@@ -182,6 +182,12 @@ def rope_replace(r, a, b):
             if items is None:
                 if len(acp) == 1 and all(chunk_may_contain(BL([it]), acp[0]) is not None for it in ch.items):
                     items = None
+                if items is None and len(acp) == 1 and len(bcp) == 1:
+                    # single char -> single char over symbolic elements: an ITE per element, no forking
+                    out.append(BL([it if isinstance(it, int) and it != acp[0] else
+                                   (bcp[0] if isinstance(it, int) else simp(z3.If(T(it) == acp[0], I(bcp[0]), T(it))))
+                                   for it in ch.items]))
+                    continue
                 if items is None:
                     # branch per symbolic element
                     new = []
